@@ -128,3 +128,24 @@ Theorem C04_chains_stay_inside : forall s s' c, fb s -> clos_refl_trans st mstep
   Forall (fun x => 2 <= x <= max_cluster s) (fst (chain s' c)).
 Proof. exact history_chains_inside. Qed.
 Print Assumptions C04_chains_stay_inside.
+
+(** what no history changes in the FAT (the property's last clause): an operation only ever changes entries that were
+    free or held a link / end mark and that belong to a cluster the volume really has.  So after ANY history of interface
+    calls the table has the same length, the two reserved entries FAT[0] and FAT[1] are the same (only mount and close
+    touch FAT[1]), every entry behind the last cluster is the same, every bad-cluster mark is still there, and so is every
+    other reserved value.  [pre]: Proofs/Inside.v (sane geometry, free entries behind the last cluster); non-vacuity:
+    C08_io_example *)
+From PyFatV Require Import Proofs.BootSafe Proofs.Inside.
+Theorem C04_reserved_and_bad_preserved : forall s s', pre s -> clos_refl_trans st wstep s s' ->
+  lenZ (s_fat s') = lenZ (s_fat s) /\ nthZ (s_fat s') 0 = nthZ (s_fat s) 0 /\ nthZ (s_fat s') 1 = nthZ (s_fat s) 1 /\
+  (forall i, max_cluster s < i -> nthZ (s_fat s') i = nthZ (s_fat s) i) /\
+  (forall i, 0 <= i -> nthZ (s_fat s) i = Gen.BAD_CLUSTER (ft s) -> nthZ (s_fat s') i = Gen.BAD_CLUSTER (ft s)) /\
+  (forall i, 0 <= i -> nthZ (s_fat s) i <> 0 -> used_val (ft s) (dmax s) (nthZ (s_fat s) i) = false -> nthZ (s_fat s') i = nthZ (s_fat s) i).
+Proof. exact history_fat_frame. Qed.
+Print Assumptions C04_reserved_and_bad_preserved.
+(** one step, the general form: a changed entry was free or used, and is a cluster of the volume *)
+Theorem C04_changed_entries : forall s s', pre s -> wstep s s' ->
+  forall i, 0 <= i -> nthZ (s_fat s') i <> nthZ (s_fat s) i ->
+  2 <= i <= max_cluster s /\ (nthZ (s_fat s) i = 0 \/ used_val (ft s) (dmax s) (nthZ (s_fat s) i) = true).
+Proof. intros s s' Hp H. destruct (wstep_J s s' Hp H) as (_ & _ & _ & _ & _ & [_ C] & _). exact C. Qed.
+Print Assumptions C04_changed_entries.
